@@ -286,6 +286,11 @@ def run(M, c):
             H, Mi, S = r.randrange(24), r.randrange(60), r.randrange(60)
             if i % 10 == 0:
                 H, Mi, S = r.choice(((0, 0, 0), (23, 59, 59), (12, 0, 0)))
+            edge = i % 40 == 9
+            if edge:
+                # the last representable day with a negative offset: the value exists although its UTC equivalent does not
+                d = dt.date(9999, 12, r.choice((31, 31, 30)))
+                H, Mi, S = r.choice(((23, 59, 59), (23, 30, 0), (r.randrange(24), r.randrange(60), r.randrange(60))))
             form = r.choice(iso.DATE_FORMS[:6])
             basic = iso.is_basic(form)
             tform = r.choice(iso.TIME_FORMS_BASIC if basic else iso.TIME_FORMS_EXT)
@@ -297,6 +302,8 @@ def run(M, c):
             ds, ed = iso.render_date(d, form)
             ts, tf = iso.render_time(H, Mi, S, tform, frac, fsep)
             offm = r.choice((None, 0, r.randrange(-1439, 1440), r.choice((-1439, 1439, 330, -210, 60, -60, -30, -1, -59, 1, 59))))
+            if edge:
+                offm = -r.choice((1, 30, 60, 330, 720, 1439, r.randrange(1, 1440)))
             oform = r.choice(OFF_FORMS)
             if offm is not None and oform == "Z" and offm != 0:
                 oform = "hh:mm"
@@ -336,6 +343,8 @@ def run(M, c):
             stag = tag if kind >= 5 else (form + (":month-end" if d.day == _cal.monthrange(d.year, d.month)[1] else "") + ":with-time")
             if kind == 6:
                 stag = "time-only"
+            if edge and kind < 5:
+                stag += ":last-day-utc-out-of-range"
             judge(M, s, exp, tag, full=True, direct=(tag not in ("year",)), stag=stag)
             if i < 3:
                 M.sample({"k": "one", "s": s, "exp": exp, "tag": tag})
@@ -361,6 +370,12 @@ def run(M, c):
             if F[0] < 1000:
                 continue
             offm = r.choice((0, 0, r.randrange(-1439, 1440), r.choice((-30, -1, -59, 30, 1439, -1439))))
+            if i % 40 == 11:
+                # "every DateTime in UTC or a fixed offset": the first / last representable day in an offset that puts the
+                # UTC equivalent outside datetime's range
+                late = i % 80 == 11
+                F = ((9999, 12, 31) if late else (1, 1, 1)) + (((23, 59, 59) if late else (0, 0, 0)) if i % 3 else (r.randrange(24), r.randrange(60), r.randrange(60))) + (F[6],)
+                offm = (-1 if late else 1) * r.choice((1, 60, 330, 1439, r.randrange(1, 1440)))
             tz = P.UTC if (offm == 0 and i % 3) else P.tz.timezone.FixedTimezone(offm * 60)
             x = P.DateTime(*F, tzinfo=tz)
             saved = M.current
@@ -368,6 +383,8 @@ def run(M, c):
                                        ("to_iso8601_string", lambda v: v.to_iso8601_string(), False),
                                        ("to_rfc3339_string", lambda v: v.to_rfc3339_string(), False),
                                        ("to_atom_string", lambda v: v.to_atom_string(), True), ("to_w3c_string", lambda v: v.to_w3c_string(), True)):
+                if F[0] < 1000 and to_second:
+                    continue        # the format()-based renderers do not pad years below 1000 (outside the rendering domain)
                 s = f(x)
                 M.current = {"k": "rt", "fields": list(F), "offm": offm, "fmt": name, "s": s}
                 rr = _exc(P.parse, s) if i % 3 else _exc(P.parse, s, tz=TZ_OPTS[i % len(TZ_OPTS)])
